@@ -659,13 +659,13 @@ def classify_shift(case):
 
 
 SUBCHECKS = [
-    Subcheck("euler", euler_cases, check_euler, classify_euler, quick=3000, thorough=80000, journal=False),
-    Subcheck("chain", chain_cases, check_chain, classify_chain, quick=600, thorough=20000, journal=False),
-    Subcheck("sdss", _body, check_sdss, classify_sdss, quick=800, thorough=30000, journal=False),
-    Subcheck("sdss_inverse", _body, check_sdss_inverse, classify_sdss_inverse, quick=500, thorough=20000,
+    Subcheck("euler", euler_cases, check_euler, classify_euler, quick=6000, thorough=80000, journal=False),
+    Subcheck("chain", chain_cases, check_chain, classify_chain, quick=1200, thorough=20000, journal=False),
+    Subcheck("sdss", _body, check_sdss, classify_sdss, quick=1600, thorough=30000, journal=False),
+    Subcheck("sdss_inverse", _body, check_sdss_inverse, classify_sdss_inverse, quick=1000, thorough=20000,
              journal=False),
-    Subcheck("xyz", xyz_cases, check_xyz, classify_xyz, quick=800, thorough=30000, journal=False),
-    Subcheck("xyz2eq", vec_cases, check_xyz2eq, classify_xyz, quick=500, thorough=20000, journal=False),
-    Subcheck("rotate", rotate_cases, check_rotate, classify_rotate, quick=1200, thorough=40000, journal=False),
-    Subcheck("shift", shift_cases, check_shift, classify_shift, quick=4000, thorough=100000, journal=False),
+    Subcheck("xyz", xyz_cases, check_xyz, classify_xyz, quick=1600, thorough=30000, journal=False),
+    Subcheck("xyz2eq", vec_cases, check_xyz2eq, classify_xyz, quick=1000, thorough=20000, journal=False),
+    Subcheck("rotate", rotate_cases, check_rotate, classify_rotate, quick=2400, thorough=40000, journal=False),
+    Subcheck("shift", shift_cases, check_shift, classify_shift, quick=8000, thorough=100000, journal=False),
 ]
